@@ -223,5 +223,37 @@ def parseCfg (toks : List Tok) : Option (Config × List Tok) :=
     | _ => none
   | _ => none
 
+/-! ### fix FC19-D16: the system type is printed (as `system=xdma, `) unless it is the default -/
+
+def sysName : SysType → String | .regular => "reg" | .xdma => "xdma"
+def sysOf (s : String) : Option SysType :=
+  if s = "reg" then some .regular else if s = "xdma" then some .xdma else none
+
+def printSysPrefix : SysType → List Tok
+  | .regular => []
+  | .xdma => [.ident "system", .eq, .ident (sysName .xdma), .comma]
+
+def printCfgFixed (c : Config) : List Tok := .lt :: printSysPrefix c.sys ++ printStreamers c.streamers ++ [.gt]
+
+def parseStreamersThen (sys : SysType) (r : List Tok) : Option (Config × List Tok) :=
+  match parseStreamers (r.length + 1) r with
+  | some (ss, .gt :: r') => some ({ streamers := ss, sys := sys }, r')
+  | _ => none
+
+/-- `if parser.parse_optional_keyword("system"): "=", parse_str_enum(StreamerSystemType), ","` -/
+def parseCfgFixed (toks : List Tok) : Option (Config × List Tok) :=
+  match toks with
+  | .lt :: .ident s :: r =>
+    if s = "system" then
+      match r with
+      | .eq :: .ident v :: .comma :: r' =>
+        match sysOf v with
+        | none => none
+        | some sys => parseStreamersThen sys r'
+      | _ => none
+    else parseStreamersThen .regular (.ident s :: r)
+  | .lt :: r => parseStreamersThen .regular r
+  | _ => none
+
 end Syntax
 end SnaxVerif
